@@ -38,7 +38,83 @@ def fmt_and_vet(res, gr, results):
         res.violation({"kind": "spec-violation", "what": "go vet reports problems in generated code", "log": (p.stderr or "")[-3000:]})
 
 
+# CEL rules whose generated code must compile: the documented examples, one expression per translator feature, and
+# for every import heuristic of celValidator.Imports() (substring tests on the expression text) an expression that
+# NEEDS the package and one that merely mentions the trigger text inside a string literal or renders without it.
+CEL_COMPILE = [
+    ("int", "value >= 18"), ("int", "value >= 18 && value <= 120"), ("float64", "value > 0.0"), ("bool", "value == true"),
+    ("int", "value >= this.A"), ("int", "value * this.A <= this.A + 100"), ("string", "size(value) > 0"), ("float64", "value < this.F"),
+    # strings
+    ("string", "value.contains('a')"), ("string", "value.startsWith('pre')"), ("string", "value.endsWith('.go')"),
+    ("string", "value != 'x.contains(y)'"), ("string", "value != 'startsWith(' && value != 'endsWith('"),
+    # regexp
+    ("string", "value.matches('^[a-z]+$')"), ("string", "value != 'matches('"),
+    # strconv / fmt
+    ("string", "int(value) > 3"), ("string", "value != 'int('"),
+    ("string", "double(value) > 1.5"), ("int", "double(value) > 1.5"), ("string", "value != 'double('"),
+    ("int", "string(value) == '12'"), ("string", "string(value) == '12'"), ("float64", "string(value) != ''"), ("string", "value != 'string('"),
+    # time
+    ("string", "duration(value) > duration('1s')"), ("time.Duration", "value > duration('1s')"), ("string", "value != 'duration(' && value != 'timestamp('"),
+    # slices
+    ("string", "value in this.Tags"), ("int", "value in this.Nums"), ("int", "value in [1, 2, 3]"), ("string", "value in ['a', 'b']"),
+    ("string", "value != 'not in use'"), ("string", "!(value in this.Tags)"),
+    # comprehension macros
+    ("[]string", "value.all(x, x != '')"), ("[]int", "value.exists(x, x > 3)"), ("[]int", "value.exists_one(x, x == 5)"),
+    ("[]int", "size(value.filter(x, x > 0)) <= 2"), ("[]string", "size(value.map(x, x + '!')) >= 0"), ("[]string", "size(value) > 0"),
+    ("[]string", "value.all(x, x in this.Tags)"), ("[]string", "value.exists(x, x.startsWith('a') && x.matches('b$'))"),
+    # arithmetic / logic
+    ("int", "!(value > 5) || value % 2 == 0"), ("int", "-value < 3"), ("int", "value * (this.A + 1) > 10"), ("float64", "value > 1.0 / 2.0"),
+    ("string", "value == \"admin\" || value == 'a\\\\b'"),
+]
+
+
+def cel_compiles(res):
+    """every accepted CEL rule of the list above must produce a file that builds and vets (alone in its package, and
+    all of them together in one struct next to non-CEL markers)"""
+    import celgen
+    import genfam
+    from synth import basic, fld, scenario, struct
+    scen = []
+    for i, (vt, e) in enumerate(CEL_COMPILE):
+        fields = [fld("V", ["//govalid:cel=" + e], celgen.typeref(vt))]
+        for nm, go in celgen.COMPANIONS:
+            fields.append(fld(nm, [], celgen.typeref(go)))
+        scen.append(scenario("c08cel%d" % i, [struct("T", fields, [])], imports=["time"]))
+    # all in one struct, with markers that need other imports (utf8 for maxlength, the helper package for email)
+    fields = [fld("V%d" % i, ["//govalid:cel=" + e.replace("value", "this.V%d" % i) if False else "//govalid:cel=" + e], celgen.typeref(vt))
+              for i, (vt, e) in enumerate(CEL_COMPILE)]
+    fields.append(fld("Em", ["//govalid:email", "//govalid:maxlength=40"], basic("string")))
+    for nm, go in celgen.COMPANIONS:
+        fields.append(fld(nm, [], celgen.typeref(go)))
+    scen.append(scenario("c08celall", [struct("T", fields, [])], imports=["time"]))
+    gr = genfam.GenRun(res, {"scenarios": scen}, "c08cel")
+    if not gr.generate():
+        return
+    loud = []
+    if gr.gen_status != 0:
+        res.violation({"kind": "generation-failed", "exit": gr.gen_status, "log_tail": gr.gen_log,
+                       "what": "govalid exited non-zero on the list of CEL rules that must generate"})
+        return
+    meta = gr.translate()
+    write_asserts(gr)
+    ok, errs = gr.go_vet_build()
+    for m in meta:
+        if not m["generated"]:
+            res.violation({"kind": "no-file-generated", "struct": m["key"], "source": genprop.struct_source(gr, m["key"]),
+                           "what": "govalid wrote no validator for a struct with a CEL rule"})
+        elif m["pkg"] in errs or (not ok and not errs):
+            res.violation({"kind": "compile-error", "struct": m["key"], "source": genprop.struct_source(gr, m["key"]),
+                           "compiler": "\n".join(errs.get(m["pkg"], []))[:2000],
+                           "what": "the code generated for this CEL rule does not compile"})
+    files = [m["file"] for m in meta if m["generated"]]
+    p = subprocess.run(["gofmt", "-l"] + files, stdout=subprocess.PIPE, stderr=subprocess.PIPE, text=True)
+    for f in [l for l in p.stdout.split() if l][:3]:
+        res.violation({"kind": "spec-violation", "what": "generated file is not gofmt-clean", "file": f, "content": open(f).read()[:3000]})
+    res.coverage["cel_rules_compiled"] = {"expressions": len(CEL_COMPILE), "packages": len(scen), "files": len(files)}
+
+
 def check(res):
+    cel_compiles(res)
     corpus = corpora.c08(res.seed, res.tier)
     cl = kf.make_classifier(res, "C08", known_findings("C08"))
     genprop.run(res, "C08", PROPFILE, corpus, classify=cl, pre_build=write_asserts, spec=False,
